@@ -34,11 +34,28 @@ def visible_mask(ob):
     return [[not isinstance(c, Hidden) for c in r] for r in ob.grid.objects]
 
 
-def mk_noninterference(fname, H, W, box=None, fixed=None):
+def earlier_call(sx, toks, pose, area):
+    """an EARLIER observation of the same world through the same ray-tracing visibility function with OTHER public parameters (stricter
+    or more lenient): it must leave no trace in what the default observation function returns afterwards"""
+    from functools import partial
+    from gym_gridverse.agent import Agent
+    from gym_gridverse.envs import observation_functions as OF
+    from gym_gridverse.envs import visibility_functions as VF
+    from gym_gridverse.geometry import Position
+    from gym_gridverse.state import State
+    from .obs_common import grid_of
+    kw = sx.choice('earlier', [dict(absolute_counts=False, threshold=0.75), dict(absolute_counts=True, threshold=0), dict(absolute_counts=True, threshold=3)])
+    st = State(grid_of(toks), Agent(Position(pose[0], pose[1]), pose[2], None))
+    OF.from_visibility(st, area=area, visibility_function=partial(VF.raytracing, **kw))
+
+
+def mk_noninterference(fname, H, W, box=None, fixed=None, prelude=False):
     def h(sx):
         toks = make_world(sx, H, W)
         pose = sym_pose(sx, H, W)
         area = sym_area(sx, box, **needs(fname)) if fixed is None else fixed_area(sx, fixed, fname)
+        if prelude:
+            earlier_call(sx, toks, pose, area)
         ob1 = observe(fname, toks, pose, area)
         ac = concrete_area(area)
         pose_c = (int(pose[0]), int(pose[1]), pose[2])
@@ -69,11 +86,13 @@ def mk_noninterference(fname, H, W, box=None, fixed=None):
     return h
 
 
-def mk_connectivity(fname, H, W, box=None, fixed=None):
+def mk_connectivity(fname, H, W, box=None, fixed=None, prelude=False):
     def h(sx):
         toks = make_world(sx, H, W)
         pose = sym_pose(sx, H, W)
         area = sym_area(sx, box, **needs(fname)) if fixed is None else fixed_area(sx, fixed, fname)
+        if prelude:
+            earlier_call(sx, toks, pose, area)
         ob = observe(fname, toks, pose, area)
         ac = concrete_area(area)
         hh, ww = ac[1] - ac[0] + 1, ac[3] - ac[2] + 1
@@ -228,6 +247,11 @@ def obligations(tier):
                         continue
                     if area_ok(a, fname):
                         obs.append(Obligation(f'{kind}-{fname}-{H}x{W}-area{a}', mkf(fname, H, W, fixed=a), dict(kind=kind, function=fname, H=H, W=W, area=list(a))))
+    # the default ray-traced observation after an earlier observation of the same world with other visibility parameters
+    for kind, mkf in (('noninterference', mk_noninterference), ('connectivity', mk_connectivity)):
+        for (H, W, a) in [(3, 2, (-2, 0, -1, 1)), (3, 4, (-2, 0, -1, 1))] + ([] if qk else [(3, 4, (-2, 0, -2, 2))]):
+            obs.append(Obligation(f'{kind}-raytracing-{H}x{W}-area{a}-after-a-call-with-other-parameters', mkf('raytracing', H, W, fixed=a, prelude=True),
+                                  dict(kind=kind, function='raytracing', H=H, W=W, area=list(a), earlier='absolute_counts/threshold in (False, 0.75), (True, 0), (True, 3)')))
     for fname in DET:
         for n in ([7, 9, 11] if qk else [7, 9, 11, 13]):
             obs.append(Obligation(f'large-view-{fname}-{n}x{n}', mk_large(fname, n), dict(function=fname, view=[n, n], symbolic_opacity='3 cells next to the agent, all others transparent')))
